@@ -92,6 +92,10 @@ def run(ctx, rep):
     if t:
         rep.guarded("R02-COMM", lambda: r_comm(sh, rep, t))
         rep.guarded("R02-FOLD", lambda: r_fold(sh, rep, t))
+    rep.rule("R02-VALUEFORM", "the inliner's cant_throw_condition admits only CEK value forms (Var, Constant, Delay, Lambda, Builtin)", floor=1)
+    rep.rule("R02-SATURATED", "reducers that identify builtin arguments by stack position (subtract->add flip, constant folder) test arg_stack.len() == arity before rewriting", floor=2)
+    rep.guarded("R02-VALUEFORM", lambda: r_valueform(sh, rep))
+    rep.guarded("R02-SATURATED", lambda: r_saturated(sh, rep))
     rep.guarded("R02-CASE", lambda: r_case(sh, rep))
     rep.guarded("R02-WALK", lambda: r_walk(sh, rep))
     rep.guarded("R02-ONLY", lambda: r_only(sh, rep))
@@ -375,3 +379,100 @@ def r_only(sh, rep):
     fin = find_method(sh.file("crates/aiken-lang/src/gen_uplc.rs"), "CodeGenerator", "finalize")
     n = len([c for c in calls_in(fin["body"]) if call_name(c) and last(call_name(c)) == "aiken_optimize_and_intern"])
     rep.check(n == 1, "R02-ONLY", "finalize#once", "crates/aiken-lang/src/gen_uplc.rs", "finalize must run the optimiser exactly once (found %d calls)" % n)
+
+
+# ---------------------------------------------------------------------------------------------------------
+# R02-VALUEFORM: what the inliner treats as "cannot throw" is a set of CEK value forms
+# ---------------------------------------------------------------------------------------------------------
+# spec table (CEK machine): constructors whose evaluation is a single step that returns a value and cannot fail
+VALUE_FORMS = {"Var", "Constant", "Delay", "Lambda", "Builtin"}
+TERM_CTORS = {"Var", "Delay", "Lambda", "Apply", "Constant", "Force", "Error", "Builtin", "Constr", "Case"}
+
+
+def _term_ctors_in(node):
+    out = set()
+    for n in walk(node):
+        for key in ("p",):
+            v = n.get(key)
+            if isinstance(v, str) and "::" in v and v.split("::")[-2] == "Term" and v.split("::")[-1] in TERM_CTORS:
+                out.add(v.split("::")[-1])
+    return out
+
+
+def r_valueform(sh, rep):
+    f = find_method(sh.file(SH), "Term<Name>", "inline_reducer") if False else None
+    fj = sh.file(SH)
+    f = [fn for q, fn in all_fns(fj) if q.endswith("::inline_reducer")]
+    if not f:
+        raise AnchorMissing("fn inline_reducer in shrinker.rs")
+    f = f[0]
+    rep.touched(SH, "Term::inline_reducer")
+    defs = {}
+    for n in walk(f["body"]):
+        if n["k"] == "Local" and n["pat"]["k"] == "Ident" and n.get("init") is not None:
+            defs.setdefault(n["pat"]["name"], []).append(n)
+    if "cant_throw_condition" not in defs:
+        raise AnchorMissing("let cant_throw_condition in inline_reducer")
+    for loc in defs["cant_throw_condition"]:
+        seen, work, ctors = set(), [loc["init"]], set()
+        while work:
+            e = work.pop()
+            ctors |= _term_ctors_in(e)
+            for n in walk(e):
+                if n["k"] == "Path" and n["p"] in defs and n["p"] not in seen and n["p"] != "cant_throw_condition":
+                    # only boolean helpers feed the condition; term bindings (arg_term) are scrutinees, not part of the set
+                    for d in defs[n["p"]]:
+                        if d["init"]["k"] in ("Macro", "Binary", "Unary", "MethodCall") and (d["init"]["k"] != "MethodCall" or d["init"]["m"] in ("any", "all", "is_some", "is_none", "contains")):
+                            seen.add(n["p"])
+                            work.append(d["init"])
+        bad = sorted(ctors - VALUE_FORMS)
+        rep.check(not bad and ctors, "R02-VALUEFORM", "inline_reducer#cant_throw_condition", sh.loc(SH, loc), "the inliner's cant_throw_condition admits Term::%s: only the value forms %s evaluate in one step without failing; an application (even of a builtin to a constant: one-argument builtins such as unIData are then saturated) can abort, and inlining it under a delay or lambda that never runs turns an aborting program into a succeeding one" % ("/".join(bad), sorted(VALUE_FORMS)), sample={"admitted": sorted(ctors)})
+
+
+# ---------------------------------------------------------------------------------------------------------
+# R02-SATURATED: reducers that pick builtin arguments by position do so only on saturated applications
+# ---------------------------------------------------------------------------------------------------------
+POSITIONAL_REDUCERS = ["convert_arithmetic_ops", "builtin_eval_reducer"]
+
+
+def _is_saturation_test(e):
+    """<x>.len() == <y>.arity()  (either order)"""
+    for n in walk(e):
+        if n["k"] == "Binary" and n["op"] == "==":
+            sides = [n["l"], n["r"]]
+            has_len = any(x["k"] == "MethodCall" and x["m"] == "len" for x in sides)
+            has_ar = any(x["k"] == "MethodCall" and x["m"] == "arity" for x in sides)
+            if has_len and has_ar:
+                return True
+    return False
+
+
+def r_saturated(sh, rep):
+    fj = sh.file(SH)
+    for name in POSITIONAL_REDUCERS:
+        fs = [fn for q, fn in all_fns(fj) if q.endswith("::" + name)]
+        if not fs:
+            raise AnchorMissing("fn %s in shrinker.rs" % name)
+        f = fs[0]
+        rep.touched(SH, "Term::" + name)
+        m = find_enum_match(f, "Term", TERM_CTORS, min_hits=1)
+        if m is None:
+            raise AnchorMissing("match over Term in " + name)
+        n_arm = 0
+        for v, arm, alt in arm_table(m):
+            if v != "Builtin":
+                continue
+            # does the arm replace the node?
+            assigns = [n for n in walk(arm["body"]) if n["k"] == "Assign" and n["l"]["k"] == "Unary" and n["l"]["op"] == "*" and n["l"]["e"]["k"] == "Path" and n["l"]["e"]["p"] == "self"]
+            if not assigns:
+                continue
+            n_arm += 1
+            ok = "guard" in arm and _is_saturation_test(arm["guard"])
+            if not ok:
+                # an `if` whose condition holds the test and whose then-branch contains every assignment
+                for n in walk(arm["body"]):
+                    if n["k"] == "If" and _is_saturation_test(n["cond"]) and all(n["then"]["s"][0] <= a["s"][0] <= n["then"]["s"][2] for a in assigns):
+                        ok = True
+            rep.check(ok, "R02-SATURATED", "%s#Builtin-arm#saturation-test" % name, sh.loc(SH, arm), "%s rewrites a builtin node using the arguments found on arg_stack but no longer tests that the application is saturated (`arg_stack.len() == arity`): on a partial application (which builtin_curry_reducer creates by hoisting `[(builtin f) c]`) the last argument on the stack is not the builtin's last parameter, so the rewrite changes which operand is negated / folded" % name, sample={"assignments": len(assigns)})
+        if n_arm == 0:
+            rep.bad("R02-SATURATED", "%s#Builtin-arm#missing" % name, sh.loc(SH, f), "no rewriting Term::Builtin arm found in %s (anchor)" % name)
